@@ -20,10 +20,10 @@ def plan(pid, tier):
     if pid in ("C01", "C02", "C04", "C06", "C07", "C09", "C12", "C13"):
         legs.append(hx_leg("SC32", features=("32_components",), props=[pid] + (["C01", "C02"] if pid == "C13" else []), **(dict(drop_world=True) if pid in ("C04", "C13") else {})))
     # whole-population sweeps at sizes straddling 2^16 and 2^20 (thorough: 2^24 too): index-width and size-threshold behaviour
-    if pid in ("C01", "C02", "C04", "C06", "C07", "C08", "C12", "C13"):
+    if pid in ("C01", "C02", "C04", "C06", "C07", "C08", "C10", "C12", "C13"):
         legs.append(hx_leg("POP", sizes=[65537, 1048577] + ([] if tier == "quick" else [16777216])))
     # the same at scale on the events build: logs with more than 2^16 / 2^20 entries, exact size_hint, clears, clone
-    if pid in ("C17", "C13"):
+    if pid in ("C17", "C13", "C10"):
         legs.append(hx_leg("POP", features=("events",), sizes=[65537, 1048577]))
     return legs
 
